@@ -7,10 +7,10 @@ K == {"a", "b", "c", "d"}
 L == {"a"}
 R(k, kind) == [k |-> k, kind |-> kind]
 Leaf == [leaf |-> TRUE, start |-> <<>>, dynOn |-> None, dynThen |-> <<>>, dynElse |-> <<>>, disc |-> <<>>,
-         proj |-> <<>>, base |-> 0, force |-> FALSE, valid |-> TRUE, sig |-> 1]
+         proj |-> <<>>, base |-> 0, force |-> FALSE, valid |-> TRUE, sig |-> 1, out |-> FALSE]
 Rec(s, on, th, el, pj, v) ==
   [leaf |-> FALSE, start |-> s, dynOn |-> on, dynThen |-> th, dynElse |-> el, disc |-> <<>>, proj |-> pj,
-   base |-> 1, force |-> FALSE, valid |-> v, sig |-> 1]
+   base |-> 1, force |-> FALSE, valid |-> v, sig |-> 1, out |-> FALSE]
 BSeq == << Rec(<<R("a","in")>>, None, <<>>, <<>>, <<"a">>, TRUE),
            Rec(<<R("c","in")>>, None, <<>>, <<>>, <<"c">>, TRUE),
            Rec(<<R("a","in")>>, "a", <<R("c","in")>>, <<>>, <<"a","c">>, TRUE),
